@@ -379,7 +379,7 @@ pub fn create_img_from_file(img_path: &str) -> Result<Box<dyn DiskImage>,DYNERR>
         Ok(disk_img_data) => {
             let mut maybe_ext = img_path.split('.').last();
             if let Some(ext) = maybe_ext {
-                if !KNOWN_FILE_EXTENSIONS.contains(&ext.to_lowercase()) {
+                if !KNOWN_FILE_EXTENSIONS.split(',').any(|known| known==ext.to_lowercase()) {
                     maybe_ext = None;
                 }
             }
@@ -419,7 +419,7 @@ pub fn create_fs_from_file(img_path: &str) -> Result<Box<dyn DiskFS>,DYNERR> {
         Ok(disk_img_data) => {
             let mut maybe_ext = img_path.split('.').last();
             if let Some(ext) = maybe_ext {
-                if !KNOWN_FILE_EXTENSIONS.contains(&ext.to_lowercase()) {
+                if !KNOWN_FILE_EXTENSIONS.split(',').any(|known| known==ext.to_lowercase()) {
                     maybe_ext = None;
                 }
             }
